@@ -258,12 +258,14 @@ func (br *xmpReader) readTagValue() (buf []byte, err error) {
 			} else if buf[i] == '/' && buf[i+1] == '>' {
 				i += 2
 			}
-			// removes white space and new lines prefixes
-			for ; i < len(buf); i++ {
-				if isWhiteSpace(buf[i]) {
-					continue
-				}
-				break
+			// removes white space and new lines before a child element; white space that
+			// belongs to a text value (followed by text or by the end tag) is part of the value
+			k := i
+			for k < len(buf) && isWhiteSpace(buf[k]) {
+				k++
+			}
+			if k == len(buf) || (buf[k] == '<' && (k+1 == len(buf) || buf[k+1] != '/')) {
+				i = k
 			}
 			j = i
 		}
